@@ -3,6 +3,7 @@ Invariants that hold under *every* linearisation of commands overlapping the run
 (DESIGN 3.4, I1-I4), evaluated on the harness timeline at final quiescence.
 Returns a list of (symptom signature, detail).
 """
+from vlib.simharness import num
 from vlib.protocol import StreamAutomaton, STATES
 from vlib.refdevs import WARMUP
 
@@ -37,7 +38,7 @@ def judge(h, warm, end, reference_trace=None, program_changed=False):
             out.append((f"run-thread-not-parked-in:{abstract}", {"snapshot": snap}))
     # I1: stream automaton per replication
     for part in split_replications(tl):
-        auto = StreamAutomaton(float(warm), float(end))
+        auto = StreamAutomaton(num(warm), num(end))
         for r in part:
             v = auto.feed(r)
             if v:
